@@ -44,8 +44,11 @@ Definition probe (orig : option appid) (t : rterm) (s : egraph) : res (sexp * eg
                   end;
       do sa <- slots_of s' a;
       do e3 <- match orig with Some o => do b <- eg_eq s' a o; Ok (sbool b) | None => Ok (Sym "na") end;
+      (* the invocations as returned, before any canonicalisation: number of slot arguments *)
+      let raw := Lst [Sym "raw"; Num (N.of_nat (List.length (am a)));
+                      match lk with Some x => Num (N.of_nat (List.length (am x))) | None => Sym "na" end] in
       Ok (Lst [Sym "p"; lk_sx; sbool true; Num (N.of_nat (c1 - c0));
-               Num (N.of_nat (if Nat.leb n0 n1 then n1 - n0 else n0 - n1)); sa; e3], s')
+               Num (N.of_nat (if Nat.leb n0 n1 then n1 - n0 else n0 - n1)); sa; e3; raw], s')
   end.
 
 Fixpoint run_probes (hs : list appid) (ps : list sexp) (s : egraph) (acc : list sexp) : list sexp :=
